@@ -446,7 +446,10 @@ def build_evidence(pid, pcfg, tier, unit_outs, obligations, violations, known_hi
 
 
 def write_evidence(pid, ev):
-    d = os.path.join(VERIF, "evidence")
+    # evidence/<id>.json describes runs against /repo itself; runs against another tree
+    # (VERIF_REPO=..., used for seeded-change rehearsals) must not overwrite it
+    d = os.path.join(VERIF, "evidence") if os.path.realpath(REPO) == "/repo" else \
+        os.environ.get("VERIF_EVIDENCE_DIR", "/var/tmp/rten-verif-evidence-other-tree")
     os.makedirs(d, exist_ok=True)
     try:
         import jsonschema
